@@ -56,6 +56,10 @@ def specs_for(ctx):
         for rule in rc.sampled_rules(rng, w.modules, 60, max_batch=3):
             ep.eval(rule, single_as_string=rng.random() < 0.5)
         specs.append(ep.spec)
+    # worlds shaped like scanned trees: every package has an '__init__' module that imports and is imported
+    n_init = 25 if ctx.quick else 500
+    specs += rc.package_init_specs(rng, n_init, partners=False)
+    meta["worlds_with_package_init_modules"] = n_init
     meta["random_worlds"] = n_worlds
     return specs, meta
 
